@@ -344,4 +344,19 @@ example : flowsOf (run (attached 4294967295 (.auto 2))
     (`no_stall` assumes every owed top-up is eventually issued). -/
 theorem topup_owed_until_queued : Amqp.Cancel.topupResetLast = true := by decide
 
+/-- **resume_reports_the_new_count.** After a detach and a resumption (nothing queued) the flow that
+    follows reports exactly the delivery-count the sender's new attach carried — not the old count,
+    not the old count carried over on top of it — with the credit the receiver holds; the counts of
+    the previous incarnation play no part. -/
+theorem resume_reports_the_new_count (s : RSt) (idc : Nat) :
+    (resume s idc).2 = [.flow idc (get_link_flow.assign_link_credit_0 s.lc) false false] ∧
+    (resume s idc).1.dc = idc := by
+  simp [resume, onSetCredit, sendFlow, get_link_flow.assign_drain_0]
+
+/-- and the deliveries received after it are counted from there -/
+example : flowsOf (run (resume (run (attached 100 .manual)
+      [.setCredit 3, .arrive false false, .arrive false false, .arrive false false, .recv, .recv, .recv]).1 500).1
+    [.setCredit 5, .arrive false false, .arrive false false, .recv, .recv, .setCredit 4]).2
+    = [(500, 5), (502, 4)] := by decide
+
 end Amqp.RecvCredit
